@@ -3,7 +3,7 @@ import re
 
 from hypothesis import strategies as st
 
-from .. import darwin, domains, events as EV, strategies as S, textparse as TP
+from .. import darwin, domains, events as EV, scenario as SC, strategies as S, textparse as TP
 from ..core import Violation, guard
 from .c09 import render, renderings, distinct_words
 
@@ -39,7 +39,10 @@ def prop_result(ctx, case):
     e = [err] + e[1:]
     if not renderings(err).isdisjoint(renderings(e[1])) and err:
         return
-    txt = guard(render, name, a, e)
+    # the window holds unrelated records of the same thread (an interrupt, a page fault, undecoded ids), sometimes hundreds
+    nn = case.get('nested', 0)
+    nested = [SC.junk(0x33, seed + j, j % 7) for j in range(nn)]
+    txt = guard(render, name, a, e, nested=nested)
     sc = TP.split_call(txt)
     if sc is None:
         raise Violation(f'call-shape:{name}', f'{txt!r}')
@@ -77,7 +80,7 @@ def prop_result(ctx, case):
         if sc2 is None or sc2[2] != rest:
             raise Violation(f'result-depends-on-start:{name}', f'{name}: {txt!r} vs {txt2!r}')
     nt = (err != 0 and e[1] != 0) or (err == 0 and e[1] >= 2 ** 31)
-    ctx.note([name, e[:2]], nontrivial=nt, classes=['error' if err else 'success', 'unknown-code' if err > 106 else 'darwin-code' if err else 'zero'])
+    ctx.note([name, e[:2]], nontrivial=nt, classes=['error' if err else 'success', 'nested' if nn else 'bare', *(['long-window'] if nn > 200 else []), 'unknown-code' if err > 106 else 'darwin-code' if err else 'zero'])
 
 
 def prop_overlap(ctx, case):
@@ -123,11 +126,12 @@ def run(ctx):
     cases = []
     for r in range(ctx.n(30, 600)):
         for i, n in enumerate(ns):
-            cases.append({'name': n, 'seed': base + 17 * i + 1000003 * r, 'err': ERR_VALUES[(i * 7 + r * 13 + ctx.seed) % len(ERR_VALUES)]})
+            cases.append({'name': n, 'seed': base + 17 * i + 1000003 * r, 'err': ERR_VALUES[(i * 7 + r * 13 + ctx.seed) % len(ERR_VALUES)],
+                          'nested': [0, 1, 2, 3, 1, 0, 5][(i + r) % 7] if (i + 5 * r + ctx.seed) % 97 else [300, 260, 1000][(i + r) % 3]})
     ctx.run_enum('result', cases, prop_result, exhaustive_label='every non-exempt BSD decoder name (END tuples sampled)')
     ov = st.fixed_dictionaries({'x': st.sampled_from(ns), 'y': st.sampled_from(ns), 'seed': st.integers(0, 2 ** 62),
                                 'ex': st.sampled_from([0, 9, 13, 35]), 'ey': st.sampled_from([0, 1, 2, 60]), 'crossing': st.booleans()})
     ctx.run_given('overlap', ov, prop_overlap, ctx.n(500, 10000))
     strat = st.fixed_dictionaries({'name': st.sampled_from(ns), 'seed': st.integers(0, 2 ** 62),
-                                   'err': st.one_of(st.sampled_from(ERR_VALUES), S.u64)})
+                                   'err': st.one_of(st.sampled_from(ERR_VALUES), S.u64), 'nested': st.integers(0, 4)})
     ctx.run_given('result', strat, prop_result, ctx.n(600, 10000))
